@@ -356,6 +356,80 @@ def hoistBoundApply (t : HoistBoundTarget) : Stmt :=
   let st := hoistOne t.fSt t.l.st
   seqs (st.1 ++ hi.1 ++ lo.1 ++ [.loop t.l.v lo.2 hi.2 st.2 t.l.body])
 
+/-! ## ReplaceInductionVariablesTrans -/
+
+structure ReplaceIVTarget where
+  v : Nat
+  lo : Expr
+  hi : Expr
+  st : Expr
+  /-- direct children of the loop body -/
+  body : List Stmt
+  deriving Repr, Inhabited
+
+def ReplaceIVTarget.original (t : ReplaceIVTarget) : Stmt := .loop t.v t.lo t.hi t.st (seqs t.body)
+
+/-- `_replace_references`: every `Reference` equal to the scalar `x` is replaced by a copy of `r`
+(array accesses, assignment targets and loop variables are not `Reference`s to `x`) -/
+def substE (x : Nat) (r : Expr) : Expr → Expr
+  | .lit n => .lit n
+  | .var y => if y = x then r else .var y
+  | .idx1 a i => .idx1 a (substE x r i)
+  | .idx2 a i j => .idx2 a (substE x r i) (substE x r j)
+  | .un op e => .un op (substE x r e)
+  | .bin op a b => .bin op (substE x r a) (substE x r b)
+
+def substS (x : Nat) (r : Expr) : Stmt → Stmt
+  | .skip => .skip
+  | .seq a b => .seq (substS x r a) (substS x r b)
+  | .assign y e => .assign y (substE x r e)
+  | .store1 a i e => .store1 a (substE x r i) (substE x r e)
+  | .store2 a i j e => .store2 a (substE x r i) (substE x r j) (substE x r e)
+  | .ite c t f => .ite (substE x r c) (substS x r t) (substS x r f)
+  | .loop v lo hi st b => .loop v (substE x r lo) (substE x r hi) (substE x r st) (substS x r b)
+
+/-- `_is_induction_variable` for the scalar assignment `x = e` at position `k` of the loop body:
+nothing on the right-hand side is written in the loop body, the assignment is the first access
+of `x` in the body, and every later access of `x` is a READ (a call argument is READWRITE and is
+exported as a read followed by a write) -/
+def isIV (body : List Stmt) (k : Nat) (x : Nat) (e : Expr) : Bool :=
+  (eVars e).all (fun r => !decide (r ∈ wVars (seqs body)))
+  && (accOf x (sAcc (seqs (body.take k)))).isEmpty
+  && !decide (x ∈ wVars (seqs (body.drop (k + 1))))
+
+/-- state of `apply`: loop header, remaining body, statements already placed after the loop -/
+structure RivState where
+  lo : Expr
+  hi : Expr
+  st : Expr
+  body : List Stmt
+  posts : List Stmt
+  deriving Repr, Inhabited
+
+/-- the `while indx < len(children)` loop of `apply` (fuel bounds the number of steps) -/
+def rivGo (v : Nat) : Nat → Nat → RivState → RivState
+  | 0, _, s => s
+  | fuel + 1, idx, s =>
+    match s.body[idx]? with
+    | none => s
+    | some (.assign x e) =>
+      if isIV s.body idx x e then
+        -- detach, substitute in the whole loop (header included), post-loop assignment with
+        -- the loop variable replaced by `v - step` (the step expression AFTER the substitution),
+        -- inserted directly after the loop
+        let post := Stmt.assign x (substE v (.bin .sub (.var v) (substE x e s.st)) e)
+        rivGo v fuel idx ⟨substE x e s.lo, substE x e s.hi, substE x e s.st,
+          (s.body.eraseIdx idx).map (substS x e), post :: s.posts⟩
+      else rivGo v fuel (idx + 1) s
+    | some _ => rivGo v fuel (idx + 1) s
+
+/-- validate only requires a Loop -/
+def replaceIVValidate (_t : ReplaceIVTarget) : Except Refusal Unit := .ok ()
+
+def replaceIVApply (t : ReplaceIVTarget) : Stmt :=
+  let s := rivGo t.v (2 * t.body.length + 1) 0 ⟨t.lo, t.hi, t.st, t.body, []⟩
+  seqs (.loop t.v s.lo s.hi s.st (seqs s.body) :: s.posts)
+
 /-! ## LoopTiling2DTrans = chunk(outer) ; chunk(inner) ; swap(element loop of outer, chunk loop of inner) -/
 
 structure TileTarget where
